@@ -11,3 +11,4 @@ import TLX.Props.Translated.Demux
 import TLX.Props.Translated.Ports
 import TLX.Props.Translated.TlsSess
 import TLX.Props.Translated.Reasm
+import TLX.Props.Translated.Frames
